@@ -486,6 +486,7 @@ func TestCheck(t *testing.T) {
 	bubble.SetT(t)
 	r := report.Start(t, "C06")
 	defer r.Finish()
+	bubble.WatchDeadlocks(3, func(frame, dump string) { r.DeadlockVerdict("c06", frame, dump) })
 
 	algos := algosQuick
 	if r.Thorough() {
